@@ -71,6 +71,8 @@ structure State where
   /-- `last_reference_end`: where the last token written ends in the original code, when its
   content was read from the original code and nothing else has been written since -/
   lastEnd : Option Nat := none
+  /-- `last_number_dot`: the last thing written is a number token that ends with a dot (`5.`) -/
+  numDot : Bool := false
   deriving Repr, DecidableEq
 
 /-- `output` -/
@@ -81,28 +83,41 @@ def init : State := {}
 
 /-- `push_str` -/
 def pushStr (s : State) (t : List UInt8) : State :=
-  { s with rout := t.reverse ++ s.rout, line := s.line + countNewLines t, lastEnd := none }
+  { s with rout := t.reverse ++ s.rout, line := s.line + countNewLines t, lastEnd := none,
+           numDot := false }
+
+/-- The space rule of the token-based generator: `should_break_with_space` on the last character
+written, and — a number written `5.` followed by a letter, digit or `_` would read as one
+malformed number — always after a number token that ends with a dot. -/
+def spaceRule (last : Option UInt8) (numDot : Bool) (next : UInt8) : Bool :=
+  (numDot && (isDigit next || isUpper next || isLower next || next == 95)) ||
+  match last with
+  | some e => shouldBreakWithSpace e next
+  | none => false
 
 /-- `needs_space(next_character)` -/
-def needsSpace (s : State) (next : UInt8) : Bool :=
-  match s.rout with
-  | [] => false
-  | last :: _ => shouldBreakWithSpace last next
+def needsSpace (s : State) (next : UInt8) : Bool := spaceRule s.rout.head? s.numDot next
+
+/-- `content.ends_with('.') && content.starts_with(|c| c.is_ascii_digit())` -/
+def endsNumberDot (content : List UInt8) : Bool :=
+  content.getLast? == some 46 && (match content.head? with | some c => isDigit c | none => false)
 
 /-- `uncomment` -/
 def uncomment (s : State) : State :=
   { s with rout := 10 :: s.rout, line := s.line + 1, commenting := false,
-           uncomments := s.uncomments + 1, lastEnd := none }
+           uncomments := s.uncomments + 1, lastEnd := none, numDot := false }
 
 /-- `output.push(' ')` after a positive `needs_space` -/
 def pushSpace (s : State) : State :=
-  { s with rout := 32 :: s.rout, spaces := s.spaces + 1, lastEnd := none }
+  { s with rout := 32 :: s.rout, spaces := s.spaces + 1, lastEnd := none, numDot := false }
 
 /-- `write_trivia` (`comment = true` for `TriviaKind::Comment`) -/
 def writeTrivia (s : State) (comment : Bool) (content : List UInt8) : State :=
   let isLine := comment && isSingleLineComment content
   let isMulti := comment && !isLine
-  let s1 := if isMulti && s.commenting then uncomment s else s
+  let s0 := if isMulti && s.commenting then uncomment s else s
+  -- a `-` token directly followed by `--` would start the comment one character early
+  let s1 := if comment && !s0.commenting && s0.rout.head? == some 45 then pushSpace s0 else s0
   let s2 := pushStr s1 content
   if comment then
     if isLine then { s2 with commenting := true } else s2
@@ -114,7 +129,8 @@ form: `n - line` newlines. -/
 def pad (s : State) (n : Nat) : State :=
   { s with rout := List.replicate (n - s.line) 10 ++ s.rout, line := s.line + (n - s.line),
            pads := s.pads + (n - s.line),
-           lastEnd := if n - s.line = 0 then s.lastEnd else none }
+           lastEnd := if n - s.line = 0 then s.lastEnd else none,
+           numDot := if n - s.line = 0 then s.numDot else false }
 
 /-- `follows_original`: the token is read from the original code (`ref = some (start, end)`) and
 starts exactly where the last written token ended in the original code. -/
@@ -139,7 +155,8 @@ def prepToken (s : State) (content : List UInt8) (line : Option Nat) (spaceCheck
 def writeTokenContent (s : State) (content : List UInt8) (line : Option Nat) (spaceCheck : Bool)
     (ref : Option (Nat × Nat)) : State :=
   if content.isEmpty then s
-  else { pushStr (prepToken s content line spaceCheck ref) content with lastEnd := ref.map (·.2) }
+  else { pushStr (prepToken s content line spaceCheck ref) content with
+           lastEnd := ref.map (·.2), numDot := endsNumberDot content }
 
 /-- `write_symbol` (`spaceCheck = true`) / `write_symbol_without_space_check` (`false`).
 `write_symbol("")` panics in Rust when not commenting (`expect("symbol cannot be empty")`);
@@ -282,21 +299,30 @@ def Op.endAfter (lastEnd : Option Nat) : Op → Option Nat
   | .token text _ _ ref => if text.isEmpty then lastEnd else ref.map (·.2)
   | _ => none
 
-/-- The space rule does not fire between the text written so far (`last` = its last byte)
-and this space-checked content — or the content directly follows, in the original code, the
-original token written just before (`lastEnd`), in which case the rule is not consulted. -/
-def Op.h3ok (last : Option UInt8) (lastEnd : Option Nat) : Op → Bool
+/-- `last_number_dot` after the operation, given its value before. -/
+def Op.numDotAfter (numDot : Bool) : Op → Bool
+  | .token text _ _ _ => if text.isEmpty then numDot else endsNumberDot text
+  | _ => false
+
+/-- The space rule does not fire between the text written so far (`last` = its last byte,
+`numDot` = it ends with a number token `5.`) and this space-checked content — or the content
+directly follows, in the original code, the original token written just before (`lastEnd`), in
+which case the rule is not consulted; and a comment never directly follows a `-`. -/
+def Op.h3ok (last : Option UInt8) (lastEnd : Option Nat) (numDot : Bool) : Op → Bool
+  | .trivia true _ => last != some 45     -- (lexically forced)
   | .token text _ true ref =>
     followsOriginal lastEnd ref ||
-    match last, text.head? with
-    | some e, some c => !shouldBreakWithSpace e c
-    | _, _ => true
+    match text.head? with
+    | some c => !spaceRule last numDot c
+    | none => true
   | _ => true
 
 /-- H₃ -/
-def h3 (last : Option UInt8) (lastEnd : Option Nat) : List Op → Bool
+def h3 (last : Option UInt8) (lastEnd : Option Nat) (numDot : Bool) : List Op → Bool
   | [] => true
-  | op :: rest => op.h3ok last lastEnd && h3 (lastOf last op.text) (op.endAfter lastEnd) rest
+  | op :: rest =>
+    op.h3ok last lastEnd numDot &&
+      h3 (lastOf last op.text) (op.endAfter lastEnd) (op.numDotAfter numDot) rest
 
 /-! ### C04: static line accounting -/
 
@@ -390,7 +416,7 @@ structure Tiling (s : List UInt8) (ts : List Tok) : Prop where
 /-- H₃: nowhere does a space-checked content follow text with which the space rule fires,
 unless it is an original token directly following, in the original code, the original token
 written just before it. -/
-def H3 (ts : List Tok) : Prop := h3 none none (ops ts) = true
+def H3 (ts : List Tok) : Prop := h3 none none false (ops ts) = true
 
 instance (ts : List Tok) : Decidable (H3 ts) := by unfold H3; infer_instance
 
